@@ -1,4 +1,51 @@
+/-
+  C01 — all writable filesystems implement one reference semantics.
+  Theorems about the reference itself and about the induction the step-wise correspondence
+  relies on.  (Backends are tied to `Ref.step` by the correspondence; `MemModel`/`BaseModel`
+  refinements are separate files.)
+-/
 import FsModel.Ref
+import FsProofs.Lemmas.TreeLemmas
+
 namespace Fs.C01
-theorem placeholder_true : True := trivial
+open Fs Fs.Ref
+
+/-- the root of the reference state is always a directory -/
+theorem ref_root_is_dir (s : State) (op : Op) (h : s.root.isDir = true) :
+    (step s op).1.root.isDir = true := by
+  sorry
+
+/-- every reference step preserves well-formedness of the tree (legal, unique names) -/
+theorem ref_wf_preserved (s : State) (op : Op) (hd : s.root.isDir = true) (h : s.root.wf = true) :
+    (step s op).1.root.wf = true := by
+  sorry
+
+/-- hence every reachable reference state is a well-formed tree -/
+theorem ref_wf_reachable (ops : List Op) :
+    (run State.empty ops).1.root.wf = true ∧ (run State.empty ops).1.root.isDir = true := by
+  sorry
+
+theorem run_append (s : State) (a b : List Op) :
+    run s (a ++ b) = ((run (run s a).1 b).1, (run s a).2 ++ (run (run s a).1 b).2) := by
+  sorry
+
+/-- The induction behind the step-wise correspondence: if an implementation (any state type
+`σ`, observed through `abs`) agrees with `Ref.step` on every single step from every state —
+same output, same resulting tree — then it agrees on every history. -/
+theorem stepwise_agreement_lifts {σ : Type} (impl : σ → Op → σ × Out) (abs : σ → State)
+    (hstep : ∀ x op, abs (impl x op).1 = (step (abs x) op).1 ∧ (impl x op).2 = (step (abs x) op).2)
+    (x : σ) (ops : List Op) :
+    let runImpl : σ → List Op → σ × List Out := fun x ops =>
+      ops.foldl (fun acc op => let r := impl acc.1 op; (r.1, acc.2 ++ [r.2])) (x, [])
+    abs (runImpl x ops).1 = (run (abs x) ops).1 ∧ (runImpl x ops).2 = (run (abs x) ops).2 := by
+  sorry
+
+/-- after `close`, nothing changes and every operation reports FilesystemClosed -/
+theorem closed_is_final (s : State) (op : Op) (h : s.closed = true) (hop : op ≠ .close) :
+    step s op = (s, .err .FilesystemClosed) := by
+  sorry
+
+example : (run State.empty [.makedir "a".toList false, .writebytes "a/f".toList [1, 2], .readbytes "/a/./f".toList]).2
+    = [.ok .unit, .ok .unit, .ok (.bytes [1, 2])] := by decide
+
 end Fs.C01
